@@ -2,6 +2,8 @@ import AmaranthVerif.Model.Sexp
 import AmaranthVerif.Model.Rtlil.Parse
 import AmaranthVerif.Model.Rtlil.WF
 import AmaranthVerif.Model.Rtlil.Eval
+import AmaranthVerif.Model.Rtlil.EmitExpr
+import AmaranthVerif.Driver.ExprIO
 
 /-! # Driver `amodel_c04` (unverified I/O glue around Model/Rtlil/{Parse,WF,Eval})
 
@@ -17,6 +19,14 @@ Response (TAB separated):
   initial settle and after every event), values comma separated in the order of `obs`; `trace` resolves
   undefined values to zeros, `trace1` (only when it differs: `xdep=1`) to ones; `collide=<k>`: the first event in
   which write ports of different clocks write different data to the same bits (-1: never) — undefined from there on.
+
+`(emit (ctx (w u|s)*) <expr> (env int*)*)` — the emitter model (`Model/Rtlil/EmitExpr.lean`) on an expression in the
+syntax of `Driver/ExprIO.lean`: `emit=ok canon=<text> cells=<type:count,…> wf=<0|1> part=<0|1> ev=<v,…> rtl=<v,…>`.
+`canon` is the emitted module body in a canonical form: generated names (`$k`) are renamed `w0, w1, …` in order of first
+occurrence, then `wires name:width …`, one `cell <type> <param=value,…> <port=sigspec,…>` or `proc <body>` per emitted
+node in emission order, and `result <sigspec>`; the harness prints the real `rtlil.convert` text in the same form.
+`ev`: per environment, the value of the result sigspec after running the emitted nodes in emission order in the RTLIL
+evaluator; `rtl`: the simulator model's value (`evalRtl`, masked to the width) — equal by `C04.emit_expr_correct`.
 -/
 
 open Amaranth Amaranth.Rtlil
@@ -40,6 +50,105 @@ def showRows (rows : List (List Nat)) : String :=
 
 def tab (xs : List String) : String := "\t".intercalate xs
 def clean (s : String) : String := String.ofList (s.toList.map (fun c => if c == '\t' || c == '\n' then ' ' else c))
+
+/-! ## canonical form of an emitted module body -/
+
+def bitChar : Bit → Char
+  | .b0 => '0' | .b1 => '1' | .x => 'x' | .dc => '-'
+
+def bitsStr (bs : List Bit) : String := s!"{bs.length}'" ++ String.ofList (bs.map bitChar)
+
+def canonChunk (ren : String → String) : Chunk → String
+  | .const bs => bitsStr bs
+  | .wire n => ren n
+  | .slice n hi lo => s!"{ren n}[{hi}:{lo}]"
+  | .bit n i => s!"{ren n}[{i}]"
+
+def canonSpec (ren : String → String) : SigSpec → String
+  | .one c => canonChunk ren c
+  | .cat cs => "{" ++ " ".intercalate (cs.map (canonChunk ren)) ++ "}"
+
+mutual
+def canonBody (ren : String → String) : Body → String
+  | .done => ""
+  | .assign l r rest => "assign " ++ canonSpec ren l ++ " " ++ canonSpec ren r ++ ";" ++ canonBody ren rest
+  | .switch sel cs rest => "switch " ++ canonSpec ren sel ++ "[" ++ canonCases ren cs ++ "]" ++ canonBody ren rest
+def canonCases (ren : String → String) : Cases → String
+  | .nil => ""
+  | .case pats b rest => "case " ++ ",".intercalate (pats.map bitsStr) ++ ":" ++ canonBody ren b ++ "|" ++ canonCases ren rest
+end
+
+def constStr : Const → String
+  | .bits bs => bitsStr bs
+  | .int n => toString n
+  | .str s => s
+
+def canonNode (ren : String → String) : Node → String
+  | .cell c =>
+    "cell " ++ c.type ++ " " ++ ",".intercalate (c.params.map (fun p => p.name ++ "=" ++ constStr p.value)) ++ " "
+      ++ ",".intercalate (c.conns.map (fun pc => pc.1 ++ "=" ++ canonSpec ren pc.2))
+  | .proc b => "proc " ++ canonBody ren b
+  | .alias l r => "alias " ++ canonSpec ren l ++ " " ++ canonSpec ren r
+  | .memrd .. => "memrd"
+
+mutual
+def bodyNames : Body → List String
+  | .done => []
+  | .assign l r rest => specWires l ++ specWires r ++ bodyNames rest
+  | .switch sel cs rest => specWires sel ++ casesNames cs ++ bodyNames rest
+def casesNames : Cases → List String
+  | .nil => []
+  | .case _ b rest => bodyNames b ++ casesNames rest
+end
+
+def nodeNames : Node → List String
+  | .cell c => c.conns.flatMap (fun pc => specWires pc.2)
+  | .proc b => bodyNames b
+  | .alias l r => specWires l ++ specWires r
+  | .memrd .. => []
+
+def isGenerated (n : String) : Bool := match n.toList with | '$' :: _ => true | _ => false
+
+def canonEmit (r : Res) : String :=
+  let names := ((r.nodes.flatMap nodeNames) ++ specWires (emitSpec r.val)).filter isGenerated |>.eraseDups
+  let ren (n : String) : String := match names.idxOf? n with
+    | some k => s!"w{k}"
+    | none => n
+  let wires := names.filterMap (fun n => (r.wires.find? (·.1 == n)).map (fun nw => s!"{ren n}:{nw.2}"))
+  " ## ".intercalate (["wires " ++ " ".intercalate wires] ++ r.nodes.map (canonNode ren) ++ ["result " ++ canonSpec ren (emitSpec r.val)])
+
+def cellHist (r : Res) : String :=
+  let tys := r.nodes.map (fun n => match n with | .cell c => c.type | .proc _ => "process" | _ => "other")
+  ",".intercalate (tys.eraseDups.map (fun t => s!"{t}:{tys.count t}"))
+
+/-- every part-select in the expression reads inside the extended operand (or the operand is unsigned): outside of
+this the emitted `$shift` is finding F27 -/
+def partsInside (ctx : Amaranth.Ctx) : Expr → Bool
+  | .const .. | .sig _ => true
+  | .op1 _ a => partsInside ctx a
+  | .op2 _ a b => partsInside ctx a && partsInside ctx b
+  | .slice a _ _ => partsInside ctx a
+  | .part a off width stride => partsInside ctx a && partsInside ctx off &&
+      (!(shapeOf ctx a).signed || decide ((2 ^ widthOf ctx off - 1) * stride + width ≤ max (widthOf ctx a) width))
+  | .cat lo hi => partsInside ctx lo && partsInside ctx hi
+  | .ite t _ a b => partsInside ctx t && partsInside ctx a && partsInside ctx b
+
+def handleEmit (ctx : Amaranth.Ctx) (e : Expr) (envs : List Amaranth.Env) : String :=
+  let st0 := EmitState.init ctx
+  let r := emitE ctx e st0.next
+  let widths := (st0.wires ++ r.wires).foldl (fun (m : Std.HashMap String Nat) w => m.insert w.1 w.2) {}
+  let rc : Rtlil.Ctx := ⟨widths, false, false⟩
+  let w := widthOf ctx e
+  let ev := envs.map fun env =>
+    let renv : Rtlil.Env := (List.range ctx.length).foldl
+      (fun (m : Rtlil.Env) i => m.insert (sigName i) (mask (ctx.shape i).width (env.val i)).toNat) {}
+    match evalNodes rc {} r.nodes renv with
+    | .ok renv' => toString (specVal rc renv' (emitSpec r.val))
+    | .error msg => "error:" ++ clean msg
+  let rtl := envs.map fun env => toString (mask w (evalRtl ctx env e)).toNat
+  tab ["emit=ok", s!"canon={canonEmit r}", s!"cells={cellHist r}", s!"wf={if e.wf ctx then 1 else 0}",
+       s!"part={if partsInside ctx e then 1 else 0}", s!"width={r.val.length}", s!"ev={",".intercalate ev}", s!"rtl={",".intercalate rtl}"]
+
 
 def runOnce (f : Flat) (xres : Bool) (init : List (String × Nat)) (events : List (List (String × Nat))) (obs : List String)
     (shiftArith : Bool := false) : Except String (List (List Nat) × Option Nat) := do
@@ -86,6 +195,13 @@ def handle (line : String) : String :=
     match parsePairs is, es.mapM parseEvent, os.mapM atomS with
     | some init, some events, some obs => handleRun text init events obs true
     | _, _, _ => "error=bad-arguments"
+  | some (.list (.atom "emit" :: c :: e :: envs)) =>
+    match parseCtx c with
+    | none => "error=bad-ctx"
+    | some ctx =>
+      match parseExpr ctx e, envs.mapM parseEnv with
+      | some ex, some es => handleEmit ctx ex es
+      | _, _ => "error=bad-expression"
   | _ => "error=bad-request"
 
 partial def loop (stdin : IO.FS.Stream) (stdout : IO.FS.Stream) : IO Unit := do
